@@ -19,11 +19,11 @@
   An open job (`OJob`) is `jo[j]` plus, while `scanning`, `pass[c]`; `refs` = (1 if scanning) + in-flight
   deliveries; `numtodo` = in-flight + `deferred` (reports that left the record 'T').
 
-  `pfinSt` takes a boolean `persist`: `false` is qmail-send.c as it is (pqfinish() walks only pqchan[]: a message
-  whose pass is still open — cut short by TERM — keeps the mtime its channel file had), `true` is the repaired
-  exit (notes/C15-fix-1.diff: `pass_finish()` stamps the channel file of a cut pass that has deferred recipients
-  with `jo[].retry`).  `codeNow` says which of the two the source currently is; the driver uses it to decide
-  whether an early retry after TERM-mid-pass is the known finding or a new violation.
+  `pfinSt` takes a boolean `persist`: `true` is qmail-send.c as it is since be3a18d (`pass_finish()` right after
+  `pqfinish()`: the channel file of a pass that TERM cut short and that has deferred recipients — `numtodo != 0`
+  once everything in flight has reported — is stamped with `jo[].retry`); `false` is the exit as it was before
+  (pqfinish() walks only pqchan[]: the message of an open pass keeps the mtime its channel file had, and is retried
+  right after the restart).  `codeNow` says which of the two the source is.
   Core Lean only.
 -/
 import Nq.SchedHist
@@ -31,9 +31,10 @@ import Nq.SchedHist
 namespace Nq.SchedPass
 open Nq Nq.Sched Nq.SchedHist
 
-/-- does qmail-send.c persist the retry time of a pass that TERM cut short?  `false` = the code as it is now
-(finding C15-term-midpass); flip to `true` once notes/C15-fix-1.diff is in /repo. -/
-def codeNow : Bool := false
+/-- does qmail-send.c persist the retry time of a pass that TERM cut short?  `true` since /repo be3a18d
+(`pass_finish()` after `pqfinish()`, notes/C15-fix-1.diff); `false` is the exit as it was before (finding
+C15-term-midpass, kept as a documented mutant: `C15_term_midpass_mutant`). -/
+def codeNow : Bool := true
 
 /-- `jo[j]` (+ `pass[c]` while `scanning`) -/
 structure OJob where
